@@ -4,12 +4,18 @@ package pdf
 
 import (
 	"bytes"
+	"compress/zlib"
+	"encoding/hex"
 	"errors"
 	"fmt"
 	"io"
 	"regexp"
+	"strings"
 	"testing"
 )
+
+var _ = zlib.NewWriter // TEMP
+var _ = hex.EncodeToString // TEMP
 
 func c05Docs(t *testing.T) []*c02Doc {
 	var docs []*c02Doc
@@ -85,6 +91,9 @@ func TestB2C05Mutations(t *testing.T) {
 		if b2Thorough() {
 			stride = 5
 		}
+		// work bound: the walk fetches at most 64 objects
+		bound := c05WorkBound(len(doc.bytes), 64+bytes.Count(doc.bytes, []byte("endobj")))
+		var maxSeen, maxSeen2 int64
 		for pos := 0; pos < len(doc.bytes); pos += stride {
 			for _, repl := range []byte{0x00, 'x', '9', '<', 0xff} {
 				mut := append([]byte{}, doc.bytes...)
@@ -100,9 +109,15 @@ func TestB2C05Mutations(t *testing.T) {
 						}
 					}()
 					for _, mode := range []ReaderErrorHandling{ErrorHandlingRecover, ErrorHandlingStop} {
-						c05Walk(bytes.NewReader(mut), int64(len(mut)), doc.ownerPwd, mode)
+						src := &c05Meter{data: mut, limit: 4 * bound}
+						c05Walk(src, int64(len(mut)), doc.ownerPwd, mode)
+						if src.bytes > bound {
+							t.Errorf("B2-FAIL work-walk %s pos=%d byte=%#x mode=%d: %d bytes served for a file of %d bytes (bound %d)", doc.desc, pos, repl, mode, src.bytes, len(mut), bound)
+						}
+						if src.bytes > maxSeen { maxSeen = src.bytes; t.Logf("TEMP walk %d of %d size %d", src.bytes, bound, len(mut)) }
 					}
-					if fi, err := SequentialScan(bytes.NewReader(mut), int64(len(mut))); err == nil {
+					src := &c05Meter{data: mut, limit: 4 * bound}
+					if fi, err := SequentialScan(src, int64(len(mut))); err == nil {
 						for _, sec := range fi.Sections {
 							for _, o := range sec.Objects {
 								fi.Read(o)
@@ -110,7 +125,371 @@ func TestB2C05Mutations(t *testing.T) {
 						}
 						fi.MakeReader(nil)
 					}
+					if src.bytes > bound {
+						t.Errorf("B2-FAIL work-scan %s pos=%d byte=%#x: %d bytes served for a file of %d bytes (bound %d)", doc.desc, pos, repl, src.bytes, len(mut), bound)
+					}
+					if src.bytes > maxSeen2 { maxSeen2 = src.bytes; t.Logf("TEMP scan %d of %d size %d", src.bytes, bound, len(mut)) }
 				}()
+			}
+		}
+	}
+	t.Logf("B2-CASES %d", cases)
+}
+
+// ---- C05: work bound ("terminates within a time proportional to the input") ----
+//
+// Time is not measured.  The work is observed at the byte source: the number of bytes the
+// io.ReaderAt hands out during one call.  The bound is linear in the input: a constant number
+// of passes over the file plus one block per item (indirect object or cross-reference
+// section) in the file.  The meter stops serving bytes at four times the bound, so that a
+// call which exceeds it returns quickly.
+
+var errC05Budget = errors.New("c05: work budget exhausted")
+
+type c05Meter struct {
+	data  []byte
+	bytes int64
+	limit int64 // 0 = none
+}
+
+func (m *c05Meter) ReadAt(p []byte, off int64) (int, error) {
+	if m.limit > 0 && m.bytes > m.limit {
+		return 0, errC05Budget
+	}
+	if off < 0 || off >= int64(len(m.data)) {
+		return 0, io.EOF
+	}
+	n := copy(p, m.data[off:])
+	m.bytes += int64(n)
+	if n < len(p) {
+		return n, io.EOF
+	}
+	return n, nil
+}
+
+func c05WorkBound(size, items int) int64 {
+	return 8*int64(size) + 4096*int64(items) + 65536
+}
+
+// c05ChainFile is a file with n incremental updates, assembled from the file-structure
+// clauses of ISO 32000-1 (7.5.4 cross-reference table, 7.5.6 incremental updates, 7.5.8
+// cross-reference streams, 7.5.8.4 hybrid-reference files), optionally with bytes in front of
+// the header (offsets count from the '%' of "%PDF-").
+type c05ChainFile struct {
+	desc    string
+	bytes   []byte
+	items   int
+	secOff  []int64 // offset of every cross-reference section, oldest first
+	stmOff  []int64 // offsets of the cross-reference streams named by /XRefStm entries
+	prevPos []int   // file position of the 10-digit /Prev value of section i (-1: none)
+	stmPos  []int   // the same for /XRefStm
+	sample  []Reference
+	want    map[Reference]string
+}
+
+type c05Ent struct {
+	num int
+	off int64
+}
+
+const (
+	c05Classic = iota
+	c05XRefStreams
+	c05HybridShared
+	c05HybridDistinct
+	c05Kinds
+)
+
+func c05Chain(kind int, pre string, n, m int) *c05ChainFile {
+	f := &c05ChainFile{want: map[Reference]string{}}
+	f.desc = fmt.Sprintf("chain kind=%d preamble=%d updates=%d compressed=%d", kind, len(pre), n, m)
+	var b bytes.Buffer
+	b.WriteString("%PDF-1.5\n%\xe2\xe3\xcf\xd3\n")
+	obj := func(num int, body string) c05Ent {
+		e := c05Ent{num, int64(b.Len())}
+		fmt.Fprintf(&b, "%d 0 obj\n%s\nendobj\n", num, body)
+		f.items++
+		return e
+	}
+	stream := func(num int, dict string, data []byte) c05Ent {
+		e := c05Ent{num, int64(b.Len())}
+		fmt.Fprintf(&b, "%d 0 obj\n<< %s /Length %d >>\nstream\n", num, dict, len(data))
+		b.Write(data)
+		b.WriteString("\nendstream\nendobj\n")
+		f.items++
+		return e
+	}
+	runs := func(ents []c05Ent, do func(first, count int)) {
+		for i := 0; i < len(ents); {
+			j := i
+			for j+1 < len(ents) && ents[j+1].num == ents[j].num+1 {
+				j++
+			}
+			do(i, j-i+1)
+			i = j + 1
+		}
+	}
+	table := func(ents []c05Ent, withZero bool) {
+		b.WriteString("xref\n")
+		if withZero {
+			b.WriteString("0 1\n0000000000 65535 f \n")
+		}
+		runs(ents, func(first, count int) {
+			fmt.Fprintf(&b, "%d %d\n", ents[first].num, count)
+			for _, e := range ents[first : first+count] {
+				fmt.Fprintf(&b, "%010d 00000 n \n", e.off)
+			}
+		})
+	}
+	trailer := func(size int, prev, stm int64) {
+		fmt.Fprintf(&b, "trailer\n<< /Size %d /Root 1 0 R", size)
+		pp, sp := -1, -1
+		if prev >= 0 {
+			b.WriteString(" /Prev ")
+			pp = len(pre) + b.Len()
+			fmt.Fprintf(&b, "%010d", prev)
+		}
+		if stm >= 0 {
+			b.WriteString(" /XRefStm ")
+			sp = len(pre) + b.Len()
+			fmt.Fprintf(&b, "%010d", stm)
+		}
+		b.WriteString(" >>\n")
+		f.prevPos = append(f.prevPos, pp)
+		f.stmPos = append(f.stmPos, sp)
+	}
+	// entries of a cross-reference stream with /W [1 4 2]
+	entry := func(typ byte, f2 int64, f3 int) []byte {
+		return []byte{typ, byte(f2 >> 24), byte(f2 >> 16), byte(f2 >> 8), byte(f2), byte(f3 >> 8), byte(f3)}
+	}
+	xrefStream := func(num int, ents []c05Ent, withZero bool, size int, root bool, prev int64) c05Ent {
+		self := c05Ent{num, int64(b.Len())}
+		ents = append(append([]c05Ent{}, ents...), self)
+		var data []byte
+		index := ""
+		if withZero {
+			data = append(data, entry(0, 0, 65535)...)
+			index = "0 1 "
+		}
+		runs(ents, func(first, count int) {
+			index += fmt.Sprintf("%d %d ", ents[first].num, count)
+			for _, e := range ents[first : first+count] {
+				data = append(data, entry(1, e.off, 0)...)
+			}
+		})
+		dict := fmt.Sprintf("/Type /XRef /Size %d /W [ 1 4 2 ] /Index [ %s]", size, index)
+		if root {
+			dict += " /Root 1 0 R"
+		}
+		pp := -1
+		if prev >= 0 {
+			dict += " /Prev "
+			pp = len(pre) + b.Len() + len(fmt.Sprintf("%d 0 obj\n<< ", num)) + len(dict)
+			dict += fmt.Sprintf("%010d", prev)
+		}
+		if root {
+			f.prevPos = append(f.prevPos, pp)
+			f.stmPos = append(f.stmPos, -1)
+		}
+		return stream(num, dict, data)
+	}
+	startxref := func(off int64) {
+		fmt.Fprintf(&b, "startxref\n%d\n%%%%EOF\n", off)
+	}
+	expect := func(num int, s string) {
+		ref := NewReference(uint32(num), 0)
+		f.want[ref] = s
+		f.sample = append(f.sample, ref)
+	}
+
+	base := []c05Ent{
+		obj(1, "<< /Type /Catalog /Pages 2 0 R >>"),
+		obj(2, "<< /Type /Pages /Kids [ ] /Count 0 >>"),
+		obj(3, "<< /Producer (chain) >>"),
+		obj(4, "42"),
+	}
+	expect(4, "42")
+	next := 7
+	shared := int64(-1)
+	if kind == c05HybridShared {
+		// m integers in an object stream, described by one cross-reference stream which
+		// every trailer of the chain names as its /XRefStm
+		var pairs, objs, xd []byte
+		for i := 0; i < m; i++ {
+			pairs = append(pairs, fmt.Sprintf("%d %d ", 100+i, len(objs))...)
+			objs = append(objs, fmt.Sprintf("%d ", 3*i)...)
+			xd = append(xd, entry(2, 5, i)...)
+		}
+		base = append(base, stream(5, fmt.Sprintf("/Type /ObjStm /N %d /First %d", m, len(pairs)), append(pairs, objs...)))
+		e6 := stream(6, fmt.Sprintf("/Type /XRef /Size %d /W [ 1 4 2 ] /Index [ 100 %d ]", 100+m, m), xd)
+		base = append(base, e6)
+		shared = e6.off
+		f.stmOff = append(f.stmOff, shared)
+		next = 100 + m
+		for _, i := range []int{0, m / 2, m - 1} {
+			expect(100+i, fmt.Sprint(3*i))
+		}
+	}
+	prev := int64(b.Len())
+	f.secOff = append(f.secOff, prev)
+	if kind == c05XRefStreams {
+		xrefStream(5, base, true, 6, true, -1)
+	} else {
+		table(base, true)
+		trailer(next, -1, shared)
+	}
+	startxref(prev)
+	for i := 0; i < n; i++ {
+		num := next + 2*i
+		e := obj(num, fmt.Sprintf("<< /U %d >>", i))
+		if i < 2 || i == n/2 || i >= n-2 {
+			expect(num, AsString(Dict{"U": Integer(i)}))
+		}
+		var here int64
+		switch kind {
+		case c05Classic, c05HybridShared:
+			here = int64(b.Len())
+			table([]c05Ent{e}, false)
+			trailer(num+2, prev, shared)
+		case c05XRefStreams:
+			here = int64(b.Len())
+			xrefStream(num+1, []c05Ent{e}, false, num+2, true, prev)
+		case c05HybridDistinct:
+			xe := xrefStream(num+1, nil, false, num+2, false, -1)
+			f.stmOff = append(f.stmOff, xe.off)
+			here = int64(b.Len())
+			table([]c05Ent{e}, false)
+			trailer(num+2, prev, xe.off)
+		}
+		f.items++
+		f.secOff = append(f.secOff, here)
+		startxref(here)
+		prev = here
+	}
+	f.items++
+	f.bytes = append([]byte(pre), b.Bytes()...)
+	return f
+}
+
+// c05ChainRun opens data in the given mode, fetches the sample objects, and runs the
+// sequential scan over it; it returns the violated work bounds and, when check is set, the
+// differences from the values the file defines.
+func c05ChainRun(f *c05ChainFile, data []byte, mode ReaderErrorHandling, check bool) (problems []string) {
+	bound := c05WorkBound(len(data), f.items)
+	defer func() {
+		if r := recover(); r != nil {
+			problems = append(problems, fmt.Sprintf("panic %v", r))
+		}
+	}()
+	src := &c05Meter{data: data, limit: 4 * bound}
+	r, err := NewReader(src, int64(len(data)), &ReaderOptions{ErrorHandling: mode})
+	if src.bytes > bound {
+		problems = append(problems, fmt.Sprintf("work-open %d bytes served for a file of %d bytes with %d items (bound %d)", src.bytes, len(data), f.items, bound))
+	}
+	if err != nil {
+		if check && !errors.Is(err, errC05Budget) {
+			problems = append(problems, fmt.Sprintf("work-baseline open: %s", b2ShortErr(err)))
+		}
+
+	} else {
+		for _, ref := range f.sample {
+			before := src.bytes
+			src.limit = before + 4*bound
+			obj, err := r.Get(ref, true)
+			if d := src.bytes - before; d > bound {
+				problems = append(problems, fmt.Sprintf("work-get %v: %d bytes served for a file of %d bytes (bound %d)", ref, d, len(data), bound))
+			}
+			if check && !errors.Is(err, errC05Budget) && (err != nil || AsString(obj) != f.want[ref]) {
+				problems = append(problems, fmt.Sprintf("work-baseline %v: got %s, want %s (%s)", ref, b2Short(obj), f.want[ref], b2ShortErr(err)))
+			}
+		}
+		r.Close()
+	}
+	src = &c05Meter{data: data, limit: 4 * bound}
+	fi, err := SequentialScan(src, int64(len(data)))
+	if src.bytes > bound {
+		problems = append(problems, fmt.Sprintf("work-scan %d bytes served for a file of %d bytes with %d items (bound %d)", src.bytes, len(data), f.items, bound))
+	}
+	if err == nil {
+		before := src.bytes
+		src.limit = before + 4*bound
+		for _, sec := range fi.Sections {
+			for _, o := range sec.Objects {
+				fi.Read(o)
+			}
+		}
+		if d := src.bytes - before; d > bound {
+			problems = append(problems, fmt.Sprintf("work-scan-read %d bytes served for a file of %d bytes with %d items (bound %d)", d, len(data), f.items, bound))
+		}
+		before = src.bytes
+		src.limit = before + 4*bound
+		fi.MakeReader(&ReaderOptions{ErrorHandling: mode})
+		if d := src.bytes - before; d > bound {
+			problems = append(problems, fmt.Sprintf("work-scan-open %d bytes served for a file of %d bytes with %d items (bound %d)", d, len(data), f.items, bound))
+		}
+	} else if check && !errors.Is(err, errC05Budget) {
+		problems = append(problems, fmt.Sprintf("work-baseline scan: %s", b2ShortErr(err)))
+	}
+	return problems
+}
+
+// TestB2C05Work: files with long chains of incremental updates (classic tables,
+// cross-reference streams, hybrid files whose tables share one /XRefStm or have one each),
+// with and without bytes in front of the header; then every /Prev and /XRefStm of a short
+// chain rewired to every cross-reference section of the file (cycles, shortcuts, tables read
+// as streams and the reverse).  Oracle: the bytes served by the source stay within
+// c05WorkBound; the unmodified files open and define the expected objects.
+func TestB2C05Work(t *testing.T) {
+	cases := 0
+	modes := []ReaderErrorHandling{ErrorHandlingRecover, ErrorHandlingStop, ErrorHandlingReport}
+	report := func(f *c05ChainFile, what string, problems []string) {
+		for i, p := range problems {
+			if i == 3 {
+				break
+			}
+			t.Errorf("B2-FAIL %s %s: %s", strings.SplitN(p, " ", 2)[0], f.desc+what, strings.SplitN(p+" ", " ", 2)[1])
+		}
+	}
+	pres := []string{"", "junk\n", strings.Repeat("# bytes in front of the header\n", 32)}
+	lengths := []int{1, 16, 128, 1024}
+	compressed := 8000
+	if b2Thorough() {
+		lengths = append(lengths, 4096)
+		pres = append(pres, "\n", strings.Repeat("x", 1019))
+	}
+	for kind := 0; kind < c05Kinds; kind++ {
+		for _, pre := range pres {
+			for _, n := range lengths {
+				f := c05Chain(kind, pre, n, compressed)
+				for _, mode := range modes {
+					cases++
+					report(f, fmt.Sprintf(" mode=%d", mode), c05ChainRun(f, f.bytes, mode, true))
+				}
+			}
+		}
+	}
+	// rewiring
+	for kind := 0; kind < c05Kinds; kind++ {
+		for _, pre := range pres[:2] {
+			f := c05Chain(kind, pre, 6, 40)
+			targets := append(append([]int64{0, int64(len(f.bytes))}, f.secOff...), f.stmOff...)
+			if len(targets) > 10 && !b2Thorough() {
+				targets = targets[:10]
+			}
+			for _, fields := range [][]int{f.prevPos, f.stmPos} {
+				for i, pos := range fields {
+					if pos < 0 {
+						continue
+					}
+					for _, target := range targets {
+						mut := append([]byte{}, f.bytes...)
+						copy(mut[pos:pos+10], fmt.Sprintf("%010d", target))
+						for _, mode := range modes[:2] {
+							cases++
+							report(f, fmt.Sprintf(" mode=%d section=%d field@%d->%d", mode, i, pos, target), c05ChainRun(f, mut, mode, false))
+						}
+					}
+				}
 			}
 		}
 	}
